@@ -464,14 +464,18 @@ class Ctx:
         if env:
             e.update(env)
         t0 = time.time()
+        errp = os.path.join(self.out, name + ".stderr")
         try:
-            p = subprocess.run([binp] + [str(a) for a in args] + ["--out", outp], cwd=self.out, env=e,
-                               stdout=subprocess.PIPE, stderr=subprocess.PIPE, timeout=timeout)
+            with open(errp, "wb") as ef:
+                p = subprocess.run([binp] + [str(a) for a in args] + ["--out", outp], cwd=self.out, env=e,
+                                   stdout=subprocess.PIPE, stderr=ef, timeout=timeout)
         except subprocess.TimeoutExpired:
             raise Infra("driver %s timed out after %ds" % (binp, timeout))
         if p.returncode != 0:
-            raise Infra("driver %s exited %d:\n%s\n%s" % (binp, p.returncode, p.stdout.decode()[-2000:],
-                                                        p.stderr.decode()[-4000:]))
+            with open(errp, "rb") as ef:
+                ef.seek(max(0, os.path.getsize(errp) - 4000))
+                tail = ef.read().decode("utf-8", "replace")
+            raise Infra("driver %s exited %d:\n%s\n%s" % (binp, p.returncode, p.stdout.decode()[-2000:], tail))
         log("driver %s: %.1fs" % (os.path.basename(binp), time.time() - t0))
         if not os.path.exists(outp) or os.path.getsize(outp) == 0:
             raise Infra("driver %s wrote no trace" % binp)
